@@ -24,6 +24,8 @@ def run(ctx, repo):
     RO.r_bounded_read(ctx, repo)
     RR.r_pyx_input_cache(ctx, repo)
     RX.r_decoded_unmodified(ctx, repo)
+    RX.r_buffer_encapsulated(ctx, repo)
+    RX.r_stale_snapshot(ctx, repo)
 
 if __name__ == '__main__':
     sys.exit(report.main('C07', 'other', run))
